@@ -94,3 +94,31 @@ def pipeline_wiring(prop):
 
 for _p in ("C02", "C07", "C08"):
     pipeline_wiring(_p)
+
+
+# ---- the caches charge their penalties to the state's cycle counter -- also after a (re)load, whether or not the
+# simulation has run before (C09 / C11: "every miss adds the configured penalty to the cycle counter", all histories)
+def reload_wiring(prop):
+    @unit("%s/state-wiring/penalties-reach-the-cycle-counter-after-a-reload" % prop)
+    def u():
+        from architecture_simulator.isa.riscv.riscv_parser import RiscvParser
+        for mode in ("single_stage_pipeline", "five_stage_pipeline"):
+            d = opts(True, 1, 0, 2, "wb", "lru", 3)
+            i = opts(True, 1, 0, 2, "wb", "lru", 5)
+            sim = RiscvSimulation(mode=mode, data_cache=d, instruction_cache=i)
+            sim.has_started = sym_bool("has_started_" + mode)
+            sim.state.performance_metrics.cycles = sym_int("cycles_" + mode, 0)
+
+            def probe(self_, program, state, **kw):
+                return None
+            stub(RiscvParser, "parse", probe)
+            sim.load_program("nop")
+            unstub(RiscvParser, "parse")
+            st = sim.state
+            check("data_cache_charges_the_state's_counter", st.memory.performance_metrics is st.performance_metrics)
+            check("instruction_cache_charges_the_state's_counter", st.instruction_memory.performance_metrics is st.performance_metrics)
+            check("penalties_kept", st.memory.miss_penality == 3 and st.instruction_memory.miss_penality == 5)
+
+
+for _p in ("C09", "C11"):
+    reload_wiring(_p)
